@@ -443,10 +443,21 @@ def run(ctx):
     formulas.formula_rule(ctx, f"{P}.GRID-FORMULA", gg, lin.args[0], lo + dx / 2, (), "first cell centre", "first", env)
     formulas.formula_rule(ctx, f"{P}.GRID-FORMULA", gg, lin.args[1], hi - dx / 2, (), "last cell centre", "last", env)
     formulas.formula_rule(ctx, f"{P}.GRID-FORMULA", gg, lin.args[2], n, (), "number of cell centres", "count", env)
-    txt = {norm(s) for s in walk_no_nested(gg.node) if isinstance(s, ast.Expr)}
-    ok = {"lvgrids.append(grid)", "grids.append(lvgrids)"} <= txt and \
-        any(isinstance(s, ast.For) and norm(s.iter) == "range(self.ndims)" for s in walk_no_nested(gg.node))
-    ctx.check(ok, f"{P}.GRID-FORMULA", gg.site, "one grid per dimension per level", "grid nesting changed", key="nesting")
+    # nesting: the grid expression is evaluated once per dimension (inner) per level (outer), loops or comprehensions
+    pm = parents(gg.node)
+    its = []
+    cur = pm.get(lin)
+    while cur is not None and cur is not gg.node:
+        if isinstance(cur, ast.For):
+            its.append(norm(cur.iter))
+        elif isinstance(cur, (ast.ListComp, ast.GeneratorExp)):
+            its += [norm(g.iter) for g in reversed(cur.generators)]
+        cur = pm.get(cur)
+    ok = its in (["range(self.ndims)", "range(self.limit_level + 1)"], ["range(self.ndims)", "range(1 + self.limit_level)"])
+    ctx.check(ok, f"{P}.GRID-FORMULA", gg.site, "one grid per dimension (inner) per level (outer)",
+              f"the grid expression is evaluated under the iterations {its} (innermost first); expected one grid per "
+              f"dimension of range(self.ndims) inside one pass per level of range(self.limit_level + 1)", key="nesting",
+              semantic=True)
     for q in ("PlotfileCooker.compute_global_grids", "PlotfileCooker.read_boxes", "PlotfileCooker.read_cell_headers"):
         formulas.rule_level_range(ctx, f"{P}.LEVEL-RANGE", prog.func(PC, q, P))
     # LEVEL-COH in read_cell_headers
